@@ -1317,7 +1317,7 @@ void message_op(Ctx& cx, const SchemaShape& sh)
     const Req& rq = *cx.rq;
     Res& rs = *cx.rs;
     ByteT* p = reinterpret_cast<ByteT*>(rq.p);
-    MV m{p, rq.n};
+    MV m = rq.ctor == 1 ? sbepp::make_view<Msg::template view>(p, rq.n) : MV{p, rq.n};
     if(rq.target == T_GROUP_AT_P)
     {
         // rq.path names the chain of groups (entry indexes are irrelevant: only types are needed)
@@ -1336,6 +1336,7 @@ void message_op(Ctx& cx, const SchemaShape& sh)
         if(rq.via_const_view)
         {
             CMV cm = m; // the converting constructor must carry the bounds along
+            if(rq.ctor == 2) cm = sbepp::make_const_view<Msg::template view>(p, rq.n);
             at_level<L, CMV, TagId>(cx, cm, 0);
         }
         else
